@@ -181,6 +181,8 @@ func (c Command) ForEach(ctx context.Context, payload xml.TokenReader, s *xmpp.S
 		}
 		c, payload, err = f(resp, respPayload)
 		if err != nil {
+			/* #nosec */
+			respPayload.Close()
 			return err
 		}
 		err = respPayload.Close()
